@@ -157,7 +157,11 @@ impl<'a> Run<'a> {
             self.stats.bump("after_callback_failure_other_oracles_skipped");
             return;
         }
-        if self.v.len() < 32 {
+        // violations of other properties must not crowd out the verdict of the property under check
+        let own = prop == self.t.prop;
+        let n_own = self.v.iter().filter(|v| v.prop == self.t.prop).count();
+        let n_other = self.v.len() - n_own;
+        if (own && n_own < 16) || (!own && n_other < 8) {
             self.v.push(Violation {
                 prop: prop.to_string(),
                 oracle: oracle.to_string(),
@@ -331,7 +335,7 @@ pub fn execute(t: &Trace, opts: Opts) -> ExecResult {
         let step = i as i64;
         let op = &ev.op;
         run.stats.bump("events");
-        if run.v.len() >= 8 {
+        if run.v.iter().filter(|v| v.prop == t.prop).count() >= 6 {
             break;
         }
         match op.code {
@@ -818,6 +822,29 @@ fn do_event(run: &mut Run, slots: &mut [Option<Slot>], ti: usize, step: i64, ev:
             }
             check_c02_event(run, slots, ti, pre, post, &val, step, op);
             check_c12(run, pre, post, &val, step, op);
+            if op.code == Code::Iter {
+                // C14, independent of the audit: a full forward and a full backward traversal must
+                // be exact reverses, yield len() entries and no key twice
+                let pr = {
+                    let s = slots[ti].as_ref().unwrap();
+                    catch_unwind(AssertUnwindSafe(|| world::suspended(|| s.s.iter_probe(op.list as usize))))
+                };
+                if let Ok(Some((f, b, len))) = pr {
+                    let mut rb = b.clone();
+                    rb.reverse();
+                    let mut keys: Vec<u32> = f.iter().map(|e| e.0).collect();
+                    keys.sort_unstable();
+                    keys.dedup();
+                    if f.len() != len || rb != f || keys.len() != f.len() {
+                        let d = format!(
+                            "list #{}: forward traversal {:?}, backward traversal {:?}, len() {}: not the same {} entries once each in opposite orders",
+                            op.list, f, b, len, len
+                        );
+                        run.viol("C14", "traversal_inconsistent", step, op, d);
+                    }
+                    run.stats.bump("iter_traversal_probes");
+                }
+            }
             if op.is_read_only() {
                 if !pre.phys_eq(post) {
                     let d = format!("read-only call changed the state from {} to {}", pre.show(), post.show());
@@ -836,6 +863,17 @@ fn do_event(run: &mut Run, slots: &mut [Option<Slot>], ti: usize, step: i64, ev:
         // the callback history of the aborted operation is still judged
         if let (Some(pre), Some(post)) = (pre.as_ref(), post.as_ref()) {
             check_c15(run, &cb_log, pre, post, &val, step, op);
+        }
+    }
+    if val.is_panic() && !run.faulted && !run.soft {
+        let sprop = match kind {
+            Kind::Tlfu => "C11",
+            Kind::Sampled => "C20",
+            _ => "",
+        };
+        if !sprop.is_empty() && slots[ti].as_ref().map(|s| s.tlfu.is_some() || s.sampled.is_some()).unwrap_or(false) {
+            let d = format!("op {} panicked ({}) where the shadow model expects a result", op.show(), val.show());
+            run.viol(sprop, "shadow_step_panic", step, op, d);
         }
     }
     if val.is_panic() && !run.faulted {
@@ -1203,7 +1241,7 @@ fn check_c12(run: &mut Run, pre: &Alpha, post: &Alpha, val: &Val, step: i64, op:
                 continue;
             }
             // ARC: the victim of a full cache becomes a ghost and may be trimmed in the same put
-            if kind == Kind::Arc && !was_ghost && pre.resident_count() >= pre.pub_cap && arc_victims == 0 {
+            if kind == Kind::Arc && !was_ghost && was.is_none() && pre.resident_count() >= pre.pub_cap && arc_victims == 0 {
                 arc_victims += 1;
                 continue;
             }
